@@ -128,3 +128,25 @@ Definition tsne_tree (slack : Q) (fuel : nat) (data : list pt) (N : nat) : optio
   | None => None
   | Some c => Some (fill true fuel data N (init c))
   end.
+
+(* ---------- the literal reading of "mass = number of points inside the cell's box" ----------
+   strictb: the point of index i lies in the OPEN box of c.  For a cell c of the tree with mass cum:
+   #{i inserted : strictly inside c} <= cum <= #{i inserted : inside the closed box of c}; the two counts
+   differ only by inserted points that lie on the boundary of c (they belong to two or four closed boxes
+   and are counted in one of them). *)
+Definition strict_in (c : cell) (p : pt) : bool :=
+  Qltb (cx c - chw c) (fst p) && Qltb (fst p) (cx c + chw c) &&
+  Qltb (cy c - chh c) (snd p) && Qltb (snd p) (cy c + chh c).
+
+Definition strictb (data : list pt) (c : cell) (i : nat) : bool :=
+  match nth_error data i with Some p => strict_in c p | None => false end.
+
+Definition cell_counts_ok (data : list pt) (ins : list nat) (c : cell) (cum : nat) : Prop :=
+  (length (filter (strictb data c) ins) <= cum)%nat /\ (cum <= length (filter (insideb data c) ins))%nat.
+
+Fixpoint all_cells (P : cell -> nat -> Prop) (t : qt) : Prop :=
+  match t with
+  | Leaf c _ cum _ => P c cum
+  | Node c cum _ nw ne sw se =>
+    P c cum /\ all_cells P nw /\ all_cells P ne /\ all_cells P sw /\ all_cells P se
+  end.
